@@ -1,9 +1,11 @@
 SPECIFICATION Spec
 CONSTANTS
-  Cons <- StmtCons
+  Cons <- ClassAsi
   Terms = {"semi","nl","omit"}
-  MaxE = 1
-  MaxS = 3
+  MaxE = 0
+  MaxS = 1
   MaxX = 2
-  MaxStack = 4
+  MaxP = 0
+  MaxL = 0
+  MaxTop = 1
 CHECK_DEADLOCK FALSE
